@@ -310,3 +310,223 @@ def gen_C15(rng, tier, cfg):
 
 
 GENS.update({"C02": gen_C02, "C11": gen_C11, "C14": gen_C14, "C15": gen_C15})
+
+
+# --------------------------------------------------------------------------- C19: ppv-null
+
+NULL_TYPES = {  # name -> (lane bits, lanes)
+    "u128x1": (128, 1), "u128x2": (128, 2), "u32x4": (32, 4), "u64x4": (64, 4), "u32x4x4": (32, 16)}
+NULL_KINDS = ["random", "zero", "ones", "single-bit", "byte-counting", "one", "ones-lane"]
+
+
+def null_vec(rng, bits, n, kind):
+    """n lanes of `bits` bits as ints, of the given structural kind"""
+    m = (1 << bits) - 1
+    nb = bits // 8
+    if kind == "zero":
+        return [0] * n
+    if kind == "ones":
+        return [m] * n
+    if kind == "one":
+        return [1] * n
+    if kind == "single-bit":
+        return [1 << rng.below(bits) for _ in range(n)]
+    if kind == "byte-counting":
+        # bytes 00 01 02 ... in memory order (little-endian lanes): every byte of the vector distinct
+        base = rng.below(3) * 0x40
+        return [int.from_bytes(bytes((base + k * nb + j) & 0xff for j in range(nb)), "little") for k in range(n)]
+    v = [int.from_bytes(rng.bytes(nb), "little") for _ in range(n)]
+    if kind == "ones-lane" and n:
+        v[rng.below(n)] = m
+    return v
+
+
+def null_pick(rng, t):
+    """kind for the t-th tuple: the fixed catalogue first, then structured random"""
+    cat = ["zero", "ones", "single-bit", "byte-counting", "ones-lane"]
+    if t < len(cat):
+        return cat[t]
+    return (["random"] * 5 + cat)[rng.below(10)]
+
+
+def null_pair_kinds(rng, t):
+    """kinds for a binary operation's operands"""
+    cat = [("zero", "zero"), ("ones", "ones"), ("ones", "one"), ("one", "ones"), ("single-bit", "single-bit"),
+           ("byte-counting", "byte-counting"), ("ones-lane", "random"), ("random", "ones")]
+    if t < len(cat):
+        return cat[t]
+    return null_pick(rng, 99), null_pick(rng, 99)
+
+
+def hw(x, bits):
+    return "%0*x" % (bits // 4, x)
+
+
+def hv(v, bits):
+    return ",".join(hw(x, bits) for x in v) if v else "-"
+
+
+def gen_C19(rng, tier, cfg):
+    N = 30 if tier == "quick" else 1000
+    ops = []
+    stats = {"per_method": {}, "kinds": {}, "amounts": {}, "indices": {}, "out_of_contract": 0, "in_contract": 0}
+
+    def emit(ty, meth, args, kinds=(), ooc=False):
+        ops.append("null %s %s %s" % (ty, meth, " ".join(args)) if args else "null %s %s" % (ty, meth))
+        key = ty + "." + meth + (" (out-of-contract)" if ooc else "")
+        stats["per_method"][key] = stats["per_method"].get(key, 0) + 1
+        for k in kinds:
+            stats["kinds"][k] = stats["kinds"].get(k, 0) + 1
+        stats["out_of_contract" if ooc else "in_contract"] += 1
+
+    def vec(ty, kind):
+        bits, n = NULL_TYPES[ty]
+        return hv(null_vec(rng, bits, n, kind), bits)
+
+    def unary(ty, meth):
+        for t in range(N):
+            k = null_pick(rng, t)
+            emit(ty, meth, [vec(ty, k)], [k])
+
+    def binary(ty, meth):
+        for t in range(N):
+            k1, k2 = null_pair_kinds(rng, t)
+            emit(ty, meth, [vec(ty, k1), vec(ty, k2)], [k1, k2])
+
+    def amounts(ty, meth, lo, hi, fmt=lambda i: str(i)):
+        """every amount lo..hi at least once, at least N tuples"""
+        t = 0
+        while t < max(N, hi - lo + 1):
+            i = lo + t % (hi - lo + 1)
+            k = null_pick(rng, t)
+            emit(ty, meth, [vec(ty, k), fmt(i)], [k])
+            stats["amounts"][ty + "." + meth] = stats["amounts"].get(ty + "." + meth, 0) + 1
+            t += 1
+
+    def slices(ty, meth, with_self, good_len):
+        bits, n = NULL_TYPES[ty]
+        for t in range(N):
+            k1, k2 = null_pair_kinds(rng, t)
+            xs = hv(null_vec(rng, bits, good_len, k2), bits)
+            emit(ty, meth, ([vec(ty, k1)] if with_self else []) + [xs], [k1, k2] if with_self else [k2])
+        # out of contract: every other length 0..good_len+2
+        for ln in range(0, good_len + 3):
+            if ln == good_len:
+                continue
+            for _ in range(2 if tier == "quick" else 20):
+                k1, k2 = null_pick(rng, 99), null_pick(rng, 99)
+                xs = hv(null_vec(rng, bits, ln, k2), bits)
+                emit(ty, meth, ([vec(ty, k1)] if with_self else []) + [xs], ooc=True)
+
+    # ---------------- u128x1
+    T = "u128x1"
+    for t in range(N):
+        k = null_pick(rng, t)
+        emit(T, "new", [hw(null_vec(rng, 128, 1, k)[0], 128)], [k])
+    for m in ["clone", "into_inner", "swap1", "swap2", "swap4", "swap8", "swap16", "swap32", "swap64", "not"]:
+        unary(T, m)
+    for m in ["andnot", "add_assign", "bitxor_assign", "bitxor", "bitand"]:
+        binary(T, m)
+    amounts(T, "rotate_right", 1, 127)
+    for i in [0, 128, 129, 255, 256, 2**32 - 1, 2**32, 2**32 + 5, 2**64 + 7, 2**128 - 1]:
+        for _ in range(3):
+            emit(T, "rotate_right", [vec(T, null_pick(rng, 99)), str(i)], ooc=True)
+    slices(T, "load", False, 1)
+    slices(T, "xor_store", True, 1)
+    for t in range(N):
+        k = null_pick(rng, t)
+        emit(T, "extract", [vec(T, k), "0"], [k])
+        stats["indices"][T + ".extract"] = [0]
+    for i in [1, 2, 127, 2**31, 2**32 - 1]:
+        for _ in range(3):
+            emit(T, "extract", [vec(T, null_pick(rng, 99)), str(i)], ooc=True)
+
+    # ---------------- u128x2
+    T = "u128x2"
+    for t in range(N):
+        k1, k2 = null_pair_kinds(rng, t)
+        emit(T, "new", [hw(null_vec(rng, 128, 1, k1)[0], 128), hw(null_vec(rng, 128, 1, k2)[0], 128)], [k1, k2])
+    for m in ["clone", "not"]:
+        unary(T, m)
+    for m in ["andnot", "add_assign", "bitxor_assign", "bitand", "bitor"]:
+        binary(T, m)
+    amounts(T, "rotate_right", 1, 127)
+    for i in [0, 128, 129, 255, 256, 2**32 - 1, 2**32, 2**32 + 5, 2**64 + 7, 2**128 - 1]:
+        for _ in range(3):
+            emit(T, "rotate_right", [vec(T, null_pick(rng, 99)), str(i)], ooc=True)
+    slices(T, "load", False, 2)
+    slices(T, "xor_store", True, 2)
+    for t in range(N):
+        k = null_pick(rng, t)
+        emit(T, "extract", [vec(T, k), str(t % 2)], [k])
+    stats["indices"][T + ".extract"] = [0, 1]
+    for i in [2, 3, 4, 2**31, 2**32 - 1]:
+        for _ in range(3):
+            emit(T, "extract", [vec(T, null_pick(rng, 99)), str(i)], ooc=True)
+
+    # ---------------- u32x4 / u64x4
+    for T in ["u32x4", "u64x4"]:
+        bits = NULL_TYPES[T][0]
+        for t in range(N):
+            k = null_pick(rng, t)
+            emit(T, "new", [hw(x, bits) for x in null_vec(rng, bits, 4, k)], [k])
+            emit(T, "splat", [hw(null_vec(rng, bits, 1, k)[0], bits)], [k])
+        unary(T, "clone")
+        for m in ["add_assign", "bitxor_assign", "add", "bitxor", "bitor", "bitand"]:
+            binary(T, m)
+        # per-lane rotate_right: every amount 1..bits-1 in every lane
+        t = 0
+        while t < max(N, bits - 1):
+            i = 1 + t % (bits - 1)
+            ii = [i, bits - i, (i * 5) % (bits - 1) + 1, (i + bits // 2 - 1) % (bits - 1) + 1]
+            ii = ii[t % 4:] + ii[:t % 4]
+            k = null_pick(rng, t)
+            emit(T, "rotate_right", [vec(T, k), hv(ii, bits)], [k])
+            t += 1
+        stats["amounts"][T + ".rotate_right"] = "1..%d in every lane" % (bits - 1)
+        big = [0, bits, bits + 1, 2 * bits, (1 << bits) - 1, 1 << (bits - 1)] + ([2**32, 2**32 + 3, 2**40 + 64] if bits == 64 else [])
+        for _ in range(10 if tier == "quick" else 100):
+            ii = [rng.choice(big) for _ in range(4)]
+            emit(T, "rotate_right", [vec(T, null_pick(rng, 99)), hv(ii, bits)], ooc=True)
+        slices(T, "from_slice_unaligned", False, 4)
+        slices(T, "write_to_slice_unaligned", True, 4)
+        for t in range(N):
+            k1, k2 = null_pair_kinds(rng, t)
+            emit(T, "extract", [vec(T, k1), str(t % 4)], [k1])
+            emit(T, "replace", [vec(T, k1), str(t % 4), hw(null_vec(rng, bits, 1, k2)[0], bits)], [k1, k2])
+        stats["indices"][T + ".extract/replace"] = [0, 1, 2, 3]
+        for i in [4, 5, 8, 2**32, 2**32 + 1, 2**63, 2**64 - 1]:
+            for _ in range(3):
+                emit(T, "extract", [vec(T, null_pick(rng, 99)), str(i)], ooc=True)
+                emit(T, "replace", [vec(T, null_pick(rng, 99)), str(i), hw(null_vec(rng, bits, 1, "random")[0], bits)], ooc=True)
+        amounts(T, "rotate_words_right", 0, 3)
+        for i in [4, 5, 6, 7, 8, 9, 2**31, 2**32 - 4, 2**32 - 1]:
+            for _ in range(3):
+                emit(T, "rotate_words_right", [vec(T, null_pick(rng, 99)), str(i)], ooc=True)
+        amounts(T, "splat_rotate_right", 1, bits - 1)
+        for i in [0, bits, bits + 1, 2 * bits - 1, 2 * bits, 2 * bits + 1, 255, 256, 2**31, 2**32 - bits, 2**32 - 1]:
+            for _ in range(3):
+                emit(T, "splat_rotate_right", [vec(T, null_pick(rng, 99)), str(i)], ooc=True)
+
+    # ---------------- u32x4x4
+    T = "u32x4x4"
+    for t in range(N):
+        ks = [null_pick(rng, t) for _ in range(4)]
+        emit(T, "from", [vec("u32x4", k) for k in ks], ks)
+        emit(T, "splat", [vec("u32x4", ks[0])], ks[:1])
+    for m in ["into_parts", "clone"]:
+        unary(T, m)
+    for m in ["bitxor", "bitor", "bitand", "add", "bitxor_assign", "add_assign"]:
+        binary(T, m)
+    amounts(T, "rotate_words_right", 0, 3)
+    for i in [4, 5, 6, 7, 8, 2**31, 2**32 - 1]:
+        for _ in range(3):
+            emit(T, "rotate_words_right", [vec(T, null_pick(rng, 99)), str(i)], ooc=True)
+    amounts(T, "splat_rotate_right", 1, 31)
+    for i in [0, 32, 33, 63, 64, 65, 255, 256, 2**31, 2**32 - 32, 2**32 - 1]:
+        for _ in range(3):
+            emit(T, "splat_rotate_right", [vec(T, null_pick(rng, 99)), str(i)], ooc=True)
+    return ops, stats
+
+
+GENS["C19"] = gen_C19
